@@ -42,7 +42,8 @@ NOSYM = ["NOP", "RET", "RETF", "SC", "RC", "HALT", "SWAP A", "MV A, 0x{b}", "MV 
          "MV A, B", "MV B, A", "WAIT", "TCL", "IR", "MVW (0x{i}), 0x{w}", "TEST A, 0x{b}", "MV IL, 0x{b}", "MV I, 0x{w}"]
 SYM = ["JP {L}", "JPZ {L}", "JPNZ {L}", "JPC {L}", "JPNC {L}", "CALL {L}", "CALLF {L}", "JPF {L}", "MV X, {L}", "MV A, [{L}]", "MV [{L}], A",
        "defl {L}", "MV Y, {L}"]
-DATA = ["defb 0x{b}", "defb 1, 2, 0x{b}", "defw 0x{w}", "defw 0x{w}, 0x{w}", "defl 0x{l}", "defs {n}", "defm \"{t}\""]
+DATA = ["defb 0x{b}", "defb 1, 2, 0x{b}", "defw 0x{w}", "defw 0x{w}, 0x{w}", "defl 0x{l}", "defl 0x{x}", "defl 0x{x}, 0x{l}",
+        "defs {n}", "defm \"{t}\""]
 NEAR = ("JP ", "JPZ ", "JPNZ ", "JPC ", "JPNC ", "CALL ")
 # single-statement forms covering the assembler's operand syntax (every addressing mode of the internal
 # memory, [r3] forms with increment/decrement/offset, [(n)] indirection, register pairs); the literals are
@@ -100,7 +101,7 @@ def _vary(t: str, r: Rng) -> str:
 
 def _fill(t: str, r: Rng) -> str:
     return (t.replace("{b}", f"{r.below(256):02X}").replace("{w}", f"{r.below(65536):04X}")
-            .replace("{l}", f"{r.below(0x100000):05X}").replace("{i}", f"{r.below(0xD4):02X}")
+            .replace("{l}", f"{r.below(0x100000):05X}").replace("{x}", f"{r.below(0x1000000):06X}").replace("{i}", f"{r.below(0xD4):02X}")
             .replace("{r}", f"{r.below(100):02X}").replace("{n}", str(r.range(1, 9)))
             .replace("{t}", r.choice(["hi", "abc", "X", "hello!"])))
 
@@ -113,10 +114,20 @@ def _gen_program(r: Rng, good: bool) -> Dict[str, Any]:
     used_sections = False
     # every .ORG target is used once and the targets are far apart, so statements never overlap
     org_pool = r.shuffle([0x100, 0x1800, 0x8000, 0xFF80, 0x10000, 0x1FF00, 0x20010, 0x2FFF0, 0x30800, 0x84000, 0x9000, 0x4000])
+    org_zero_at = None
     if r.chance(1, 3):
         stmts.append({"text": f".ORG 0x{org_pool.pop():X}", "kind": "org"})
+        if r.chance(1, 2):
+            # the program starts elsewhere and comes back to origin 0 later (a vector stub after the main code);
+            # 0x100 leaves the pool so that what follows `.ORG 0` cannot run into it
+            org_pool = [o for o in org_pool if o != 0x100]
+            org_zero_at = r.range(1, n)
     cur_sec = "code"
-    for _ in range(n):
+    zero_secs = set()
+    for pos in range(n):
+        if pos == org_zero_at and cur_sec not in zero_secs and cur_sec != "bss":
+            zero_secs.add(cur_sec)
+            stmts.append({"text": ".ORG 0x0" if r.chance(1, 2) else ".ORG 0", "kind": "org"})
         k = r.weighted([("nosym", 10), ("sym", 5), ("data", 4), ("section", 1), ("org", 1)])
         if k == "nosym":
             if r.chance(1, 2):
@@ -264,7 +275,12 @@ def _model(prog: Dict[str, Any], symbols: Dict[str, int]) -> Dict[str, Any]:
     # pass B: bytes with the real label values
     mem: Dict[int, int] = {}
     cross_page = None
+    data_expect: List[Tuple[int, str, List[int]]] = []
     for addr, size, sec, s in placed:
+        if s["kind"] == "data" or s["text"].lower().startswith("defl "):
+            exp = _expected_data(s["text"], labels)
+            if exp is not None and sec != "bss":
+                data_expect.append((addr, s["text"], list(exp)))
         text = s["text"]
         for lb, val in labels.items():
             if lb in text:
@@ -281,7 +297,37 @@ def _model(prog: Dict[str, Any], symbols: Dict[str, int]) -> Dict[str, Any]:
             continue
         for i, b in enumerate(data):
             mem[addr + i] = b
-    return {"labels": labels, "mem": sorted(mem.items()), "cross_page": cross_page}
+    return {"labels": labels, "mem": sorted(mem.items()), "cross_page": cross_page, "data": data_expect}
+
+
+def _expected_data(text: str, labels: Dict[str, int]) -> Optional[bytes]:
+    """What a data directive emits, computed here and not by the assembler: little-endian values of 1/2/3
+    bytes (truncated to the directive's width), zero fill, or the characters of a string."""
+    parts = text.strip().split(None, 1)
+    if len(parts) != 2:
+        return None
+    kind, rest = parts[0].lower(), parts[1].strip()
+    if kind == "defs":
+        return bytes(int(rest, 0))
+    if kind == "defm":
+        if rest.startswith('"') and rest.endswith('"'):
+            return rest[1:-1].encode("latin-1")
+        return None
+    width = {"defb": 1, "defw": 2, "defl": 3}.get(kind)
+    if width is None:
+        return None
+    out = bytearray()
+    for item in rest.split(","):
+        item = item.strip()
+        if item.upper() in labels:
+            v = labels[item.upper()]
+        else:
+            try:
+                v = int(item, 0)
+            except ValueError:
+                return None
+        out += (v & ((1 << (8 * width)) - 1)).to_bytes(width, "little")
+    return bytes(out)
 
 
 _STANDALONE: Dict[Tuple[int, str], Any] = {}
@@ -383,6 +429,13 @@ def check(scn: Dict[str, Any], hist: Dict[str, Any]) -> List[Dict[str, Any]]:
         for lb, val in m["labels"].items():
             if syms.get(lb) != val:
                 V("label_value", i, f"label {lb} = {syms.get(lb)}, layout model says {val:#x}", label=lb)
+                break
+        got = dict(mine)
+        for addr, text, exp in m.get("data", []):
+            have = [got.get(addr + i) for i in range(len(exp))]
+            if have != exp:
+                V("data_encoding", i, f"{text!r} at {addr:#x} emitted {have}, the directive's values are {exp}",
+                  directive=text.split()[0].lower())
                 break
         order = [s.get("label") for s in prog["stmts"]]
         if m["mem"] != mine:
